@@ -91,6 +91,8 @@ func checkC11(p *Program, r *Report) {
 	c11Kinds(p, r)
 	c11TextBase(p, r)
 	c11Fresh(p, r)
+	c11HelperTight(p, r)
+	c11FreshElement(p, r)
 	c11Preferred(p, r, c12CodecMap(p, newScratchReport(), loadValueSpec()))
 	for _, tn := range codecImpls(p) {
 		T := tn.Type().(*types.Named)
@@ -843,6 +845,164 @@ func c11Fresh(p *Program, r *Report) {
 			r.Fail("fresh-result", key, fn.Pos(), "%s: %s", fn.Name(), bad)
 		} else {
 			r.OKf("fresh-result", key, fn.Pos(), "result is freshly allocated, the caller's own bytes or another function's result")
+		}
+	}
+}
+
+// c11HelperTight: a range-checked integer conversion helper accepts every value the target type
+// can represent. (C13 decides the other direction: nothing outside the range is accepted.) A check
+// that is too strict makes Encode accept a value that Decode then refuses - or the reverse.
+func c11HelperTight(p *Program, r *Report) {
+	r.Floor("helper-tight", 35)
+	g := newGuards(p)
+	for _, fn := range p.ModuleFuncs() {
+		if fn.Pkg == nil || shortPkg(fn.Pkg.Pkg) != "datacodec" || fn.Signature.Recv() != nil {
+			continue
+		}
+		sig := fn.Signature
+		if sig.Results().Len() != 2 || !isErrorType(sig.Results().At(1).Type()) || !isIntType(sig.Results().At(0).Type()) {
+			continue
+		}
+		if sig.Params().Len() < 1 || !isIntType(sig.Params().At(0).Type()) || len(fn.Blocks) == 0 {
+			continue
+		}
+		if pos := p.Fset.Position(fn.Pos()); !strings.HasSuffix(pos.Filename, "conversions.go") {
+			continue
+		}
+		param := fn.Params[0]
+		entry := g.At(param, fn.Blocks[0])
+		target := g.typeRange(sig.Results().At(0).Type())
+		if sig.Params().Len() > 1 {
+			// int64ToInt(val, intSize) style: the target width is a parameter; decided for the
+			// widest case only (nothing may be rejected that fits 64 bits is not checkable here)
+			r.OKf("helper-tight", fnKey(fn), fn.Pos(), "target width is a run-time parameter: not decided")
+			continue
+		}
+		want := meet(entry, target)
+		// union of the parameter's interval over the success returns
+		var acc *Itv
+		for _, b := range fn.Blocks {
+			ret, ok := b.Instrs[len(b.Instrs)-1].(*ssa.Return)
+			if !ok || len(ret.Results) != 2 {
+				continue
+			}
+			if k, ok := ret.Results[1].(*ssa.Const); !ok || k.Value != nil {
+				continue // an error return
+			}
+			it := g.At(param, b)
+			if it.Bot {
+				continue
+			}
+			if acc == nil {
+				c := it
+				acc = &c
+			} else {
+				j := join(*acc, it)
+				acc = &j
+			}
+		}
+		key := fnKey(fn)
+		switch {
+		case acc == nil:
+			r.Fail("helper-tight", key, fn.Pos(), "%s has no success return", fn.Name())
+		case want.Bot:
+			r.OKf("helper-tight", key, fn.Pos(), "no caller value fits the target")
+		case acc.Lo != nil && want.Lo != nil && acc.Lo.Cmp(want.Lo) > 0 || acc.Hi != nil && want.Hi != nil && acc.Hi.Cmp(want.Hi) < 0:
+			r.Fail("helper-tight", key, fn.Pos(), "%s accepts only %s although every value in %s fits the target type %s: values the other direction produces are refused with 'out of range'", fn.Name(), acc, want, types.TypeString(sig.Results().At(0).Type(), relQual))
+		default:
+			r.OKf("helper-tight", key, fn.Pos(), "accepts %s = all of the target's range the source type can hold", acc)
+		}
+	}
+}
+
+// c11FreshElement: the decoding target an injector hands out for an element (zeroElem/zeroKey) is
+// allocated by that very call. A target kept in the injector and handed out again makes nested
+// collections decoded through it alias each other.
+func c11FreshElement(p *Program, r *Report) {
+	r.Floor("fresh-element", 5)
+	for _, fn := range p.ModuleFuncs() {
+		if fn.Pkg == nil || shortPkg(fn.Pkg.Pkg) != "datacodec" || fn.Signature.Recv() == nil {
+			continue
+		}
+		if fn.Name() != "zeroElem" && fn.Name() != "zeroKey" || len(fn.Blocks) == 0 {
+			continue
+		}
+		recv := fn.Params[0]
+		bad := ""
+		seen := map[ssa.Value]bool{}
+		var fromRecv func(v ssa.Value) bool
+		fromRecv = func(v ssa.Value) bool {
+			switch x := v.(type) {
+			case *ssa.Parameter:
+				return x == recv
+			case *ssa.FieldAddr:
+				return fromRecv(x.X)
+			case *ssa.UnOp:
+				return fromRecv(x.X)
+			case *ssa.IndexAddr:
+				return fromRecv(x.X)
+			}
+			return false
+		}
+		var origin func(v ssa.Value)
+		origin = func(v ssa.Value) {
+			if seen[v] || bad != "" {
+				return
+			}
+			seen[v] = true
+			switch x := v.(type) {
+			case *ssa.Const:
+			case *ssa.MakeInterface:
+				origin(x.X)
+			case *ssa.Alloc:
+				// new(T) in this call
+			case *ssa.Phi:
+				for _, e := range x.Edges {
+					origin(e)
+				}
+			case *ssa.Extract:
+				origin(x.Tuple)
+			case *ssa.UnOp:
+				if fromRecv(x.X) {
+					bad = "the returned decoding target is read from the injector's own state (" + describeVal(x.X) + "): the same target is handed out for several elements"
+				}
+			case *ssa.Call:
+				f := x.Call.StaticCallee()
+				if f == nil {
+					bad = "the returned target comes from a dynamic call"
+					return
+				}
+				switch f.String() {
+				case "(reflect.Value).Interface", "(reflect.Value).Addr", "(reflect.Value).Elem":
+					origin(x.Call.Args[0])
+				case "reflect.New", "reflect.Zero", "reflect.MakeSlice", "reflect.MakeMap", "reflect.MakeMapWithSize":
+				default:
+					if f.Pkg != nil && shortPkg(f.Pkg.Pkg) == "datacodec" {
+						switch f.Name() {
+						case "ensurePointer", "pointerTo":
+							origin(x.Call.Args[0])
+						case "nilSafeZero":
+						default:
+							bad = "the returned target comes from " + f.Name() + ", which is not a known allocator"
+						}
+					} else {
+						bad = "the returned target comes from " + f.String() + ", which is not a known allocator"
+					}
+				}
+			default:
+				bad = fmt.Sprintf("the origin of the returned target (%T) is not recognised", v)
+			}
+		}
+		for _, b := range fn.Blocks {
+			if ret, ok := b.Instrs[len(b.Instrs)-1].(*ssa.Return); ok && len(ret.Results) > 0 {
+				origin(ret.Results[0])
+			}
+		}
+		key := fnKey(fn)
+		if bad != "" {
+			r.Fail("fresh-element", key, fn.Pos(), "%s", bad)
+		} else {
+			r.OKf("fresh-element", key, fn.Pos(), "every returned decoding target is allocated by the call")
 		}
 	}
 }
